@@ -558,8 +558,11 @@ func (ch c10) runCase(c *core.Ctx, envPlain, envAuth *hs.Env, k c10case, idx int
 			if _, ok := expect("COPY query (binary row reader)", q("cb"), "TG"); !ok {
 				return
 			}
-			if idx%2 == 0 && k.Eff >= 5 {
-				if _, ok := expect("first bytes of the COPY file header", pg.CopyData([]byte("PGCOP")), ""); !ok {
+			// ... or the file header and the beginning of a row: its field count, part of a field
+			hdr := append([]byte("PGCOPY\n\xff\r\n\x00"), make([]byte, 8)...)
+			lead := [][]byte{nil, []byte("PGCOP"), append(append([]byte{}, hdr...), 0, 1), append(append([]byte{}, hdr...), 0, 1, 0, 0, 0, 4, 0, 0)}[(idx/3)%4]
+			if len(lead) > 0 && k.Eff >= len(lead) {
+				if _, ok := expect("beginning of the binary COPY stream", pg.CopyData(lead), ""); !ok {
 					return
 				}
 			}
